@@ -84,6 +84,8 @@ structure Conn where
   kacc : Bytes := []
   /-- ghost: bytes the kernel delivered so far -/
   kdel : Bytes := []
+  /-- ghost: bytes the application took out of `rxbs` with `clearRxbs()` -/
+  cleared : Bytes := []
   sends : List SResp := []
   recvs : List RResp := []
   /-- the peer has reset the connection: bytes already queued are still delivered, but `getpeername()` raises ENOTCONN -/
@@ -162,8 +164,51 @@ def recvLoop (c : Conn) : List RResp → Conn × Option Exn
 def serviceReceives (c : Conn) : Conn × Option Exn :=
   if c.guard then recvLoop c c.recvs else (c, none)
 
+/-- `serviceReceiveOnce`: `if [connected and] not cutoff: data = receive(); if data: rxbs.extend(data)` -/
+def serviceReceiveOnce (c : Conn) : Conn × Option Exn :=
+  if c.guard && !c.cutoff then
+    match c.recvs with
+    | [] => recvFault c (wbCode c.kind)
+    | .fault code :: rest => recvFault { c with recvs := rest } code
+    | .data d :: rest =>
+      if d = [] then ({ c with recvs := rest, cutoff := true }, none)
+      else if c.wlFailsRx then ({ c with recvs := rest, kdel := c.kdel ++ d }, some .osError)
+      else ({ c with recvs := rest, rxbs := c.rxbs ++ d, kdel := c.kdel ++ d,
+                     wireRx := if c.wl then c.wireRx ++ d else c.wireRx }, none)
+  else (c, none)
+
+/-- what `receive()` returns when the socket raised `code`: `b''` for a cut-off, `None` otherwise (or it raises) -/
+def faultRet (k : Kind) (code : Nat) : Option Bytes :=
+  match lookup (recvTable k) code with
+  | .cutoff => some []
+  | _ => none
+
+/-- a direct `receive()` call by the application: no guard, the data is RETURNED (`none` = `None`, `some []` = `b''`),
+not put into `rxbs` -/
+def recvDirect (c : Conn) : Conn × Option Exn × Option Bytes :=
+  match c.recvs with
+  | [] => ((recvFault c (wbCode c.kind)).1, (recvFault c (wbCode c.kind)).2, faultRet c.kind (wbCode c.kind))
+  | .fault code :: rest =>
+    ((recvFault { c with recvs := rest } code).1, (recvFault { c with recvs := rest } code).2, faultRet c.kind code)
+  | .data d :: rest =>
+    if d = [] then ({ c with recvs := rest, cutoff := true }, none, some [])
+    else if c.wlFailsRx then ({ c with recvs := rest, kdel := c.kdel ++ d }, some .osError, none)
+    else ({ c with recvs := rest, kdel := c.kdel ++ d, cleared := c.cleared,
+                   wireRx := if c.wl then c.wireRx ++ d else c.wireRx }, none, some d)
+
+/-- a direct `send(data)` call by the application with its own data: returns the count -/
+def sendDirect (c : Conn) (data : Bytes) : Conn × Except Exn Nat :=
+  match c.sends with
+  | [] => sendFault c (wbCode c.kind)
+  | .fault code :: rest => sendFault { c with sends := rest } code
+  | .acc n :: rest =>
+    let k := min n data.length
+    if 0 < k ∧ c.wlFailsTx = true then ({ c with sends := rest, kacc := c.kacc ++ data.take k }, .error .osError)
+    else ({ c with sends := rest, kacc := c.kacc ++ data.take k,
+                   wireTx := if c.wl then c.wireTx ++ data.take k else c.wireTx }, .ok k)
+
 inductive Op where
-  | tx (d : Bytes) | ss | sr | svc | rst
+  | tx (d : Bytes) | ss | sr | svc | rst | sro | clr
 deriving Repr
 
 /-- sequencing with exception propagation -/
@@ -178,6 +223,8 @@ def step (c : Conn) : Op → Conn × Option Exn
   | .ss => serviceSends c
   | .sr => serviceReceives c
   | .rst => ({ c with peerGone := true }, none)
+  | .sro => serviceReceiveOnce c
+  | .clr => ({ c with cleared := c.cleared ++ c.rxbs, rxbs := [] }, none)
   | .svc =>
     match c.kind with
     | .client | .clientTls => andThen (serviceSends c) serviceReceives
